@@ -305,12 +305,20 @@ def shapes(tier):
                     continue
                 out.append({'dll': dll, 'stacks': two(1, 1), 'base_lat': 1e-3,
                             'msgs': [msg(0x10, kind, dst, size)]})
+            if npk == 4:
+                # receive time stamps that are not time.time(): a backend without time stamping (0.0), a hardware clock that is
+                # 30 s ahead / behind - the time-outs run on the stack's own clock
+                for ts in ({'zero_ts': True}, {'ts_offset': 30.0}, {'ts_offset': -30.0}):
+                    for (wa, wb) in ((1, 1), (3, 3), (255, 255)):
+                        out.append(dict({'dll': dll, 'stacks': two(wa, wb), 'base_lat': 1e-3, 'msgs': [msg(0x10, 'p2p', 0x20, size)]}, **ts))
+                    out.append(dict({'dll': dll, 'stacks': two(1, 1), 'base_lat': 1e-3, 'msgs': [msg(0x10, 'bam2', 0x42, size)]}, **ts))
     return out
 
 
 RULE = ("shape = data link layer x {RTS/CTS, BAM} x 2..12 packets x window pair; for every shape the fault-free run "
         "numbers the bus frames, then every single frame k is lost and either peer falls silent from every frame k "
-        "on; each faulty run is followed by a fresh transfer on the same pair; thorough adds every single "
+        "on; each faulty run is followed by a fresh transfer on the same pair; 4-packet shapes also with receive time stamps 0.0 / 30 s ahead / "
+        "30 s behind the clock; thorough adds every single "
         "latency / wake-latency deviation on the shapes of up to 5 packets; distinct by (shape, fault, choices), non-trivial if a fault is injected")
 ASSUME = ["give-up time polled every 10 ms; allowance = standard timeout + 30 ms + the latencies the run chose",
           "a silenced peer neither sends nor receives from frame k on; its own clean-up is judged too",
